@@ -18,11 +18,20 @@ def F(h): return fhex(float.fromhex(h))
 def B(b): return 'true' if b else 'false'
 def v3(l): return '(%s, %s, %s)' % tuple(F(x) for x in l)
 
+def ground_flags(o, g):
+    """which ends of an object are on the ground plane, decided HERE from the end coordinates (|z| below the matching
+    tolerance when there is a ground), not read off the real object"""
+    if not o['ground']:
+        return [False, False]
+    tol = float.fromhex(o['tol'])
+    return [abs(float.fromhex(g['p1'][2])) < tol, abs(float.fromhex(g['p2'][2])) < tol]
+
 def coq_objs(o):
     objs = []
     for g in o['geos']:
         segs = coq_list(['SG %s %s %s %s' % (v3(s['p1']), v3(s['p2']), F(s['len']), v3(s['dir'])) for s in g['segs']])
-        objs.append('OB %s %s %s (%s, %s)' % (segs, v3(g['p1']), v3(g['p2']), B(g['gnd'][0]), B(g['gnd'][1])))
+        gf = ground_flags(o, g)
+        objs.append('OB %s %s %s (%s, %s)' % (segs, v3(g['p1']), v3(g['p2']), B(gf[0]), B(gf[1])))
     return coq_list(objs)
 
 _ctr = [0]
